@@ -16,10 +16,14 @@ package main
 
 import (
 	"context"
+	"crypto/x509"
 	"encoding/base64"
 	"encoding/json"
 	"errors"
 	"fmt"
+	"math/big"
+	"net/http"
+	"net/http/httptest"
 	"sort"
 	"strings"
 	"sync"
@@ -49,15 +53,24 @@ type window struct {
 	From, To time.Duration // offsets from now
 }
 
-var windows = []window{{"valid-now", -10 * day, 10 * day}, {"expired-1d-ago", -10 * day, -1 * day}, {"starts-in-1d", 1 * day, 10 * day}}
+var windows = []window{{"valid-now", -10 * day, 10 * day}, {"expired-1d-ago", -10 * day, -1 * day}, {"starts-in-1d", 1 * day, 10 * day},
+	// secondary (index >= firstNestedWindow): windows strictly NESTED inside valid-now - they differ from it in both
+	// edges (the three above share an edge pairwise, so "the certificate that starts last" / "ends first" never
+	// singles out the offending one)
+	{"expired-1d-ago-started-6d-ago", -6 * day, -1 * day}, {"starts-in-1d-ends-in-6d", 1 * day, 6 * day}}
+
+const firstNestedWindow = 3
 
 var signTimes = []struct {
 	Name string
 	Off  time.Duration
-}{{"-5d", -5 * day}, {"-20d", -20 * day}, {"-12h", -12 * time.Hour}, {"+5d", 5 * day},
+	Year int // != 0: the instant is 1 June of that year (too far away for a time.Duration); Off then only orders it
+}{{"-5d", -5 * day, 0}, {"-20d", -20 * day, 0}, {"-12h", -12 * time.Hour, 0}, {"+5d", 5 * day, 0},
 	// secondary (index >= firstEdgeSign): two hours before the start / after the end of the valid-now window (and two
 	// hours before the start of the expired-1d-ago window)
-	{"-10d-2h", -10*day - 2*time.Hour}, {"+10d+2h", 10*day + 2*time.Hour}}
+	{"-10d-2h", -10*day - 2*time.Hour, 0}, {"+10d+2h", 10*day + 2*time.Hour, 0},
+	// secondary: centuries ago (needed below every far-past expiry: an expiry must lie after the signing time)
+	{"in-1499", -251 * 365 * day, 1499}}
 
 const firstEdgeSign = 4
 
@@ -65,7 +78,20 @@ var expiries = []struct {
 	Name string
 	Off  time.Duration
 	Set  bool
-}{{"no-expiry", 0, false}, {"expires-in-1d", 1 * day, true}, {"expired-2h-ago", -2 * time.Hour, true}, {"expired-3d-ago", -3 * day, true}}
+	Year int // as in signTimes
+}{{"no-expiry", 0, false, 0}, {"expires-in-1d", 1 * day, true, 0}, {"expired-2h-ago", -2 * time.Hour, true, 0}, {"expired-3d-ago", -3 * day, true, 0},
+	// secondary (index >= firstFarExpiry): the far past - before the Unix epoch (negative seconds) and before 1678
+	// (outside the range of int64 nanoseconds)
+	{"expired-in-1960", -60 * 365 * day, true, 1960}, {"expired-in-1500", -250 * 365 * day, true, 1500}}
+
+const firstFarExpiry = 4
+
+func (w *world) instant(off time.Duration, year int) time.Time {
+	if year != 0 {
+		return time.Date(year, time.June, 1, 0, 0, 0, 0, time.UTC)
+	}
+	return w.now.Add(off)
+}
 
 // countersignature states
 type tokenKind struct {
@@ -115,7 +141,13 @@ var verifierZones = []struct {
 }{{"machine-default", 0}, {"+05:45", 5*time.Hour + 45*time.Minute}, {"-08:00", -8 * time.Hour}}
 
 // Intermediate certificate between leaf and root: none (chain of two), or one with its own validity window.
-var mids = []string{"no-intermediate", "intermediate-valid-now", "intermediate-expired-1d-ago", "intermediate-starts-in-1d"}
+var mids = func() []string {
+	out := []string{"no-intermediate"}
+	for _, wd := range windows {
+		out = append(out, "intermediate-"+wd.Name)
+	}
+	return out
+}()
 
 func midWindow(m int) *window {
 	if m == 0 {
@@ -147,10 +179,20 @@ type caseT struct {
 	Zone   int `json:"envelope_zone"`
 	Mid    int `json:"intermediate"`
 	VZone  int `json:"verifier_zone"`
+	// RevVia 1: the judged verifier is given NO timestamping validator: it uses the built-in check, and the
+	// countersignature comes from a TSA whose certificate names a CRL served by the harness on 127.0.0.1
+	// (tsa_rev 0: not listed, 1: listed as revoked, 2: the CRL cannot be fetched)
+	RevVia int `json:"tsa_validator_source"`
 }
 
+// Prior values: histories before the judged call
+var priors = []string{"", "[after a fine signature on the same verifier] ",
+	"[after ANOTHER verifier object, configured the opposite way (timestamping validator, tsa store in a policy statement of the same name, verifyTimestamp), was created and verified a fine signature] ",
+	"[ANOTHER verifier object, configured the opposite way, was created and used between the creation of the judged verifier and the judged call] "}
+var priorKeys = []string{"", ":after-earlier-verification-on-same-verifier", ":after-another-verifier-object-configured-differently", ":another-verifier-object-created-in-between"}
+
 func (c caseT) secondary() bool {
-	return c.Layout != 0 || c.Zone != 0 || c.Mid != 0 || c.VZone != 0 || c.Sign >= firstEdgeSign
+	return c.Layout != 0 || c.Zone != 0 || c.Mid != 0 || c.VZone != 0 || c.RevVia != 0 || c.Sign >= firstEdgeSign || c.Expiry >= firstFarExpiry || c.LeafW >= firstNestedWindow || c.CAW >= firstNestedWindow
 }
 
 // storeList renders the trustStores list of the case (and says which entries it uses).
@@ -176,9 +218,9 @@ func (c caseT) storeList() []string {
 func (c caseT) String() string {
 	sec := ""
 	if c.secondary() {
-		sec = fmt.Sprintf(" | trustStores=%v envelope-times-written-in=%s %s verifier-zone=%s", c.storeList(), envZones[c.Zone].Name, mids[c.Mid], verifierZones[c.VZone].Name)
+		sec = fmt.Sprintf(" | trustStores=%v envelope-times-written-in=%s %s verifier-zone=%s tsa-validator=%s", c.storeList(), envZones[c.Zone].Name, mids[c.Mid], verifierZones[c.VZone].Name, []string{"given-by-the-caller", "built-in(CRL-on-127.0.0.1)"}[c.RevVia])
 	}
-	return map[int]string{0: "", 1: "[after a fine signature on the same verifier] "}[c.Prior] + fmt.Sprintf("%s %s verifyTimestamp=%q leaf=%s ca=%s signed@%s %s %s %s %s", []string{"x509", "signingAuthority"}[c.Scheme], tsaPolicies[c.TSAPol], options[c.Option], windows[c.LeafW].Name, windows[c.CAW].Name, signTimes[c.Sign].Name, expiries[c.Expiry].Name, tokens[c.Token].Name, tsaRevs[c.TSARev], []string{"jws", "cose"}[c.Format]) + sec
+	return priors[c.Prior] + fmt.Sprintf("%s %s verifyTimestamp=%q leaf=%s ca=%s signed@%s %s %s %s %s", []string{"x509", "signingAuthority"}[c.Scheme], tsaPolicies[c.TSAPol], options[c.Option], windows[c.LeafW].Name, windows[c.CAW].Name, signTimes[c.Sign].Name, expiries[c.Expiry].Name, tokens[c.Token].Name, tsaRevs[c.TSARev], []string{"jws", "cose"}[c.Format]) + sec
 }
 
 type world struct {
@@ -186,9 +228,13 @@ type world struct {
 	chains map[[3]int]*pki.Chain
 	auth   []*tsa.Authority
 	spare  *pki.Cert // an unrelated root for the store of the other signing type
-	desc   ocispec.Descriptor
-	envs   sync.Map
-	mu     sync.Mutex
+	// TSA hierarchy with revocation information: one root, three time-stamping certificates naming a CRL of the root
+	// served by crlSrv: [0] not listed, [1] listed as revoked, [2] names a CRL that cannot be fetched
+	crlAuth []*tsa.Authority
+	crlSrv  *httptest.Server
+	desc    ocispec.Descriptor
+	envs    sync.Map
+	mu      sync.Mutex
 
 	observed, controls, controlsOK atomic.Int64 // cases observable through the all-log level; positive controls
 	forgeBroken                    atomic.Value // string: a zoned envelope could not be built as intended
@@ -219,16 +265,16 @@ func (w *world) chain(lw, mid, cw int) *pki.Chain {
 }
 
 func (w *world) envelope(c caseT) []byte {
-	type k struct{ s, lw, mid, cw, st, ex, tk, f, z int }
-	key := k{c.Scheme, c.LeafW, c.Mid, c.CAW, c.Sign, c.Expiry, c.Token, c.Format, c.Zone}
+	type k struct{ s, lw, mid, cw, st, ex, tk, f, z, via int }
+	key := k{c.Scheme, c.LeafW, c.Mid, c.CAW, c.Sign, c.Expiry, c.Token, c.Format, c.Zone, c.RevVia * (1 + c.TSARev)}
 	if b, ok := w.envs.Load(key); ok {
 		return b.([]byte)
 	}
 	ch := w.chain(c.LeafW, c.Mid, c.CAW)
 	sp := forge.Spec{Format: forge.Formats[c.Format], Chain: ch.X509(), Key: ch.Leaf().Key, Payload: forge.PayloadFor(w.desc),
-		Scheme: []string{forge.SchemeX509, forge.SchemeSA}[c.Scheme], SigningTime: w.now.Add(signTimes[c.Sign].Off)}
+		Scheme: []string{forge.SchemeX509, forge.SchemeSA}[c.Scheme], SigningTime: w.instant(signTimes[c.Sign].Off, signTimes[c.Sign].Year)}
 	if e := expiries[c.Expiry]; e.Set {
-		sp.Expiry = w.now.Add(e.Off)
+		sp.Expiry = w.instant(e.Off, e.Year)
 	}
 	// the same instants written with another UTC offset, as a signer in that zone writes them (JWS: RFC 3339 text;
 	// the forge lets a later attribute of the same name replace the value it wrote in UTC)
@@ -257,7 +303,11 @@ func (w *world) envelope(c caseT) []byte {
 					return w.auth[0].Token(tsa.Opts{Message: ref.SigValue, GenTime: w.now.Add(tk.Gen), AccuracySeconds: tk.Acc})
 				}
 			}
-			return w.auth[tk.Authority].Token(tsa.Opts{Message: sig, GenTime: w.now.Add(tk.Gen), AccuracySeconds: tk.Acc, WrongImprint: tk.Wrong})
+			au := w.auth[tk.Authority]
+			if c.RevVia == 1 && tk.Authority == 0 {
+				au = w.crlAuth[c.TSARev] // same trusted hierarchy question, but a certificate that names a CRL
+			}
+			return au.Token(tsa.Opts{Message: sig, GenTime: w.now.Add(tk.Gen), AccuracySeconds: tk.Acc, WrongImprint: tk.Wrong})
 		}
 	}
 	b := forge.Build(sp)
@@ -276,6 +326,27 @@ func (w *world) envelope(c caseT) []byte {
 	}
 	w.envs.Store(key, b)
 	return b
+}
+
+// crlHierarchy builds the TSA hierarchy whose certificates name a CRL, and serves that CRL on 127.0.0.1.
+func (w *world) crlHierarchy() {
+	var crlDER []byte
+	w.crlSrv = httptest.NewServer(http.HandlerFunc(func(rw http.ResponseWriter, q *http.Request) {
+		if q.URL.Path != "/tsa.crl" {
+			http.NotFound(rw, q)
+			return
+		}
+		rw.Header().Set("Content-Type", "application/pkix-crl")
+		_, _ = rw.Write(crlDER)
+	}))
+	nb, na := w.now.Add(-30*day), w.now.Add(30*day)
+	root := pki.Make(pki.Tmpl{Subject: pki.Name("c06 crl tsa root"), CA: true, PathLen: -1, NotBefore: nb, NotAfter: na}, pki.Key(pki.RSA2048, 220), nil)
+	for i, path := range []string{"/tsa.crl", "/tsa.crl", "/missing.crl"} {
+		leaf := pki.Make(pki.Tmpl{Subject: pki.Name(fmt.Sprintf("c06 crl tsa %d", i)), NotBefore: nb, NotAfter: na, KeyUsage: x509.KeyUsageDigitalSignature,
+			EKU: []x509.ExtKeyUsage{x509.ExtKeyUsageTimeStamping}, EKUCritical: true, CRLURLs: []string{w.crlSrv.URL + path}}, pki.Key(pki.RSA2048, 221+i), root)
+		w.crlAuth = append(w.crlAuth, &tsa.Authority{Root: root, Leaf: leaf})
+	}
+	crlDER = pki.CRL(root, 1, w.now.Add(-2*day), w.now.Add(20*day), []*big.Int{w.crlAuth[1].Leaf.Cert.SerialNumber}, 0).Raw
 }
 
 // ---- reference clock model (DESIGN.md A.2) ----
@@ -375,7 +446,7 @@ func (w *world) run(r *hx.Run, c caseT) {
 	stores := c.storeList()
 	switch c.TSAPol {
 	case 1:
-		ts.Put("tsa", "t", w.auth[0].Root.Cert, w.auth[2].Root.Cert, w.auth[3].Root.Cert)
+		ts.Put("tsa", "t", w.auth[0].Root.Cert, w.auth[2].Root.Cert, w.auth[3].Root.Cert, w.crlAuth[0].Root.Cert)
 	case 2:
 		ts.Errs["tsa:t"] = errors.New("mock: tsa store cannot be loaded")
 	case 3:
@@ -386,7 +457,7 @@ func (w *world) run(r *hx.Run, c caseT) {
 		// when the list names it) ALSO holds every TSA root. Only tsa stores may anchor a countersignature, so this
 		// changes nothing for a correct verifier - and it lets a verifier that takes TSA roots from the wrong stores
 		// (or from all stores, or from the neighbour in the list) pass a token the policy's tsa store does not cover.
-		for _, a := range w.auth {
+		for _, a := range append(append([]*tsa.Authority{}, w.auth...), w.crlAuth[0]) {
 			ts.Put(caType, "s", a.Root.Cert)
 			ts.Put(otherType, "o", a.Root.Cert)
 		}
@@ -404,23 +475,68 @@ func (w *world) run(r *hx.Run, c caseT) {
 	tsaValidator := mocks.Fixed(rvr, rverr)
 	sv := trustpolicy.SignatureVerification{VerificationLevel: "strict", VerifyTimestamp: options[c.Option], Override: map[trustpolicy.ValidationType]trustpolicy.ValidationAction{
 		trustpolicy.TypeAuthenticTimestamp: trustpolicy.ActionLog, trustpolicy.TypeExpiry: trustpolicy.ActionLog, trustpolicy.TypeRevocation: trustpolicy.ActionSkip}}
-	v, err := verifier.NewVerifierWithOptions(ts, verifier.VerifierOptions{OCITrustPolicy: vt.OCIDoc(sv, stores, []string{"*"}), RevocationCodeSigningValidator: mocks.AllOK(), RevocationTimestampingValidator: tsaValidator})
+	// the signature that is fine on every clock, used by the histories (same chain, scheme and format)
+	pc := caseT{Scheme: c.Scheme, LeafW: c.LeafW, Mid: c.Mid, CAW: c.CAW, Token: 1, Format: c.Format}
+	// otherObject creates ANOTHER verifier object whose configuration is the opposite of the judged one wherever the
+	// two can differ without changing what the fine signature needs: it brings a lenient timestamping validator where
+	// the judged verifier brings none (and none where the judged one brings its own), its policy statement has the
+	// same name but lists a tsa store (holding every TSA root) exactly when the judged one does not, and it says
+	// verifyTimestamp "always" where the judged one does not. It verifies the fine signature. Nothing of this may
+	// reach the judged verifier: verifier objects share no state the statement knows of.
+	otherObject := func() {
+		ots := mocks.NewTrustStore().Put(caType, "s", ch.Root().Cert)
+		ostores := []string{caType + ":s"}
+		if c.TSAPol == 0 {
+			ostores = append(ostores, "tsa:t")
+			for _, a := range append(append([]*tsa.Authority{}, w.auth...), w.crlAuth[0]) {
+				ots.Put("tsa", "t", a.Root.Cert)
+			}
+		}
+		oopt := trustpolicy.OptionAlways
+		if options[c.Option] == trustpolicy.OptionAlways {
+			oopt = ""
+		}
+		osv := trustpolicy.SignatureVerification{VerificationLevel: "strict", VerifyTimestamp: oopt, Override: map[trustpolicy.ValidationType]trustpolicy.ValidationAction{
+			trustpolicy.TypeAuthenticTimestamp: trustpolicy.ActionLog, trustpolicy.TypeExpiry: trustpolicy.ActionLog, trustpolicy.TypeRevocation: trustpolicy.ActionSkip}}
+		oo := verifier.VerifierOptions{OCITrustPolicy: vt.OCIDoc(osv, ostores, []string{"*"}), RevocationCodeSigningValidator: mocks.AllOK()}
+		if c.RevVia == 1 {
+			oo.RevocationTimestampingValidator = mocks.AllOK()
+		}
+		ov, err := verifier.NewVerifierWithOptions(ots, oo)
+		if err != nil {
+			r.Infra("other verifier: %v", err)
+			return
+		}
+		r.Eval(1)
+		_, _ = ov.Verify(ctx, w.desc, w.envelope(pc), notation.VerifierVerifyOptions{ArtifactReference: "reg.io/r@" + w.desc.Digest.String(), SignatureMediaType: forge.Formats[c.Format]})
+	}
+	if c.Prior == 2 {
+		otherObject()
+	}
+	mkOpts := func(sv trustpolicy.SignatureVerification, tv *mocks.Validator) verifier.VerifierOptions {
+		o := verifier.VerifierOptions{OCITrustPolicy: vt.OCIDoc(sv, stores, []string{"*"}), RevocationCodeSigningValidator: mocks.AllOK()}
+		if c.RevVia == 0 {
+			o.RevocationTimestampingValidator = tv
+		}
+		return o
+	}
+	v, err := verifier.NewVerifierWithOptions(ts, mkOpts(sv, tsaValidator))
 	if err != nil {
 		r.Infra("verifier: %v", err)
 		return
 	}
 	if c.Prior == 1 {
-		pc := caseT{Scheme: c.Scheme, LeafW: c.LeafW, Mid: c.Mid, CAW: c.CAW, Token: 1, Format: c.Format}
 		r.Eval(1)
 		_, _ = v.Verify(ctx, w.desc, w.envelope(pc), notation.VerifierVerifyOptions{ArtifactReference: "reg.io/r@" + w.desc.Digest.String(), SignatureMediaType: forge.Formats[c.Format]})
 		tsaValidator.Calls = nil
 	}
+	if c.Prior == 3 {
+		otherObject()
+	}
 	r.Eval(1)
 	outcome, verr := v.Verify(ctx, w.desc, w.envelope(c), notation.VerifierVerifyOptions{ArtifactReference: "reg.io/r@" + w.desc.Digest.String(), SignatureMediaType: forge.Formats[c.Format]})
 	bad := func(key, what string) {
-		if c.Prior == 1 {
-			key += ":after-earlier-verification-on-same-verifier"
-		}
+		key += priorKeys[c.Prior]
 		if c.VZone != 0 {
 			key += ":verifier-in-another-time-zone"
 		}
@@ -483,7 +599,7 @@ func (w *world) run(r *hx.Run, c caseT) {
 	// strict level: the overall verdict follows the two validations
 	if c.TSARev == 0 && c.Format == 0 {
 		sv2 := trustpolicy.SignatureVerification{VerificationLevel: "strict", VerifyTimestamp: options[c.Option], Override: map[trustpolicy.ValidationType]trustpolicy.ValidationAction{trustpolicy.TypeRevocation: trustpolicy.ActionSkip}}
-		v2, err := verifier.NewVerifierWithOptions(ts, verifier.VerifierOptions{OCITrustPolicy: vt.OCIDoc(sv2, stores, []string{"*"}), RevocationCodeSigningValidator: mocks.AllOK(), RevocationTimestampingValidator: mocks.Fixed(rvr, rverr)})
+		v2, err := verifier.NewVerifierWithOptions(ts, mkOpts(sv2, mocks.Fixed(rvr, rverr)))
 		if err == nil {
 			r.Eval(1)
 			_, e2 := v2.Verify(ctx, w.desc, w.envelope(c), notation.VerifierVerifyOptions{ArtifactReference: "reg.io/r@" + w.desc.Digest.String(), SignatureMediaType: forge.Formats[c.Format]})
@@ -525,8 +641,8 @@ func (w *world) clockFamily(r *hx.Run) {
 	for sc := 0; sc < 2; sc++ {
 		for tp := 0; tp < 2; tp++ {
 			for opt := 0; opt < 3; opt++ {
-				for lw := range windows {
-					for ex := range expiries {
+				for lw := 0; lw < firstNestedWindow; lw++ {
+					for ex := 0; ex < firstFarExpiry; ex++ {
 						for _, tk := range []int{0, 1, 3} {
 							for f := 0; f < 2; f++ {
 								if sc == 1 && (tp != 0 || opt != 0 || tk != 0) {
@@ -762,11 +878,13 @@ func slug(s string) string {
 
 func main() {
 	r := hx.New("C06")
-	r.Rule = "time-line product: scheme x tsa store in policy x verifyTimestamp x (leaf, CA) validity windows x signing time x expiry x countersignature state x TSA revocation answer x format; quick = every case with at most 5 deviations from the default case, thorough = the full product (minus envelopes core-go cannot parse: expiry not after signing time); crossed with the secondary dimensions the model must not depend on - order of the trustStores list (tsa store last / first / in the middle, a store of the other signing type around it) x UTC offset the JWS envelope's times are written with x an intermediate certificate with its own window x signing times two hours outside a window edge - up to 4 (thorough 5) deviations in total when one of them deviates; every case with <= 2 deviations again with the verifier's local time zone (time.Local) set to +05:45 and -08:00 (one at a time); clock-advance histories and frozen-clock boundary reads through the clock seam; one real verifier.Verify per case under an all-log level (+ one under strict); non-trivial = every distinct case (each has its own expected pair of results)"
-	r.Assumptions = []string{"the verification instant is the real clock; every generated instant is >= 1 h away from it, so each case has one outcome whenever it runs", "countersignatures are forged by lib/tsa (offline RFC 3161 authority); tokens from public TSAs are outside the bound", "reference clock model: DESIGN.md appendix A.2 (harness/c06 model())", "COSE envelopes carry Unix seconds, so the envelope-zone dimension exists for JWS only; certificate and token times are DER (always UTC)"}
+	r.Rule = "time-line product: scheme x tsa store in policy x verifyTimestamp x (leaf, CA) validity windows x signing time x expiry x countersignature state x TSA revocation answer x format; quick = every case with at most 5 deviations from the default case, thorough = the full product (minus envelopes core-go cannot parse: expiry not after signing time); crossed with the secondary dimensions the model must not depend on - order of the trustStores list (tsa store last / first / in the middle, a store of the other signing type around it) x UTC offset the JWS envelope's times are written with x an intermediate certificate with its own window x signing times two hours outside a window edge x validity windows strictly nested inside valid-now (both edges differ) x expiry / signing instants centuries ago (before the Unix epoch, before 1678) - up to 3 (thorough 5) deviations in total when one of them deviates; every case with <= 2 deviations again with the verifier's local time zone (time.Local) set to +05:45 and -08:00, and again with ANOTHER verifier object of the opposite configuration (timestamping validator given / not given, tsa store in an equally named statement, verifyTimestamp) created and used before the judged verifier is created / between its creation and the judged call (one at a time); the judged verifier WITHOUT a timestamping validator (built-in check against a CRL served on 127.0.0.1: not listed / revoked / not fetchable) x verifyTimestamp x leaf window x format x all four histories; clock-advance histories and frozen-clock boundary reads through the clock seam; one real verifier.Verify per case under an all-log level (+ one under strict); non-trivial = every distinct case (each has its own expected pair of results)"
+	r.Assumptions = []string{"the verification instant is the real clock; every generated instant is >= 1 h away from it, so each case has one outcome whenever it runs", "countersignatures are forged by lib/tsa (offline RFC 3161 authority); tokens from public TSAs are outside the bound", "reference clock model: DESIGN.md appendix A.2 (harness/c06 model())", "the built-in revocation check reaches the harness's CRL server on 127.0.0.1 (no other network)", "COSE envelopes carry Unix seconds, so the envelope-zone dimension exists for JWS only; certificate and token times are DER (always UTC)"}
 	now := time.Now().Truncate(time.Second)
 	w := &world{now: now, chains: map[[3]int]*pki.Chain{}}
 	w.spare = pki.NewChain(pki.ChainOpts{Len: 2, Prefix: "c06-unrelated", CAIdx: 7}).Root()
+	w.crlHierarchy()
+	defer w.crlSrv.Close()
 	w.desc = ocispec.Descriptor{MediaType: "application/vnd.oci.image.manifest.v1+json", Digest: digest.FromString("c06"), Size: 3}
 	nb, na := now.Add(-30*day), now.Add(30*day)
 	w.auth = []*tsa.Authority{tsa.New("trusted", 0, tsa.LeafProper, nb, na), tsa.New("untrusted", 1, tsa.LeafProper, nb, na), tsa.New("noncritical", 2, tsa.LeafEKUNotCritical, nb, na), tsa.New("codesigning", 3, tsa.LeafCodeSigning, nb, na)}
@@ -789,11 +907,11 @@ func main() {
 	// them deviates is enumerated up to maxDevSec deviations in total
 	sizes := []int{2, len(tsaPolicies), len(options), len(windows), len(windows), len(signTimes), len(expiries), len(tokens), len(tsaRevs), 2, len(layouts), len(envZones), len(mids)}
 	const dimFormat = 9
-	maxDev, maxDevSec := 5, 4
+	maxDev, maxDevSec := 5, 3
 	if r.Thorough() {
 		maxDev, maxDevSec = len(sizes), 5
 	}
-	var cases, zoneCases []caseT
+	var cases, zoneCases, objCases []caseT
 	var rec func(i int, cur []int, dev int, sec bool)
 	rec = func(i int, cur []int, dev int, sec bool) {
 		if i == len(sizes) {
@@ -824,6 +942,13 @@ func main() {
 					c.VZone = vz
 					zoneCases = append(zoneCases, c)
 				}
+				c.VZone = 0
+				// the same case with another, differently configured verifier object created before / in between
+				// (whatever such an object might leave behind is process-global: run one at a time)
+				for _, p := range []int{2, 3} {
+					c.Prior = p
+					objCases = append(objCases, c)
+				}
 			}
 			return
 		}
@@ -831,7 +956,7 @@ func main() {
 			d, s := dev, sec
 			if v != 0 && i != dimFormat {
 				d++
-				if i > dimFormat || (i == 5 && v >= firstEdgeSign) {
+				if i > dimFormat || (i == 5 && v >= firstEdgeSign) || (i == 6 && v >= firstFarExpiry) || ((i == 3 || i == 4) && v >= firstNestedWindow) {
 					s = true
 				}
 			}
@@ -842,6 +967,20 @@ func main() {
 		}
 	}
 	rec(0, nil, 0, false)
+	// the judged verifier without a timestamping validator of its own (built-in check against the CRL the harness
+	// serves): answer of the CRL x verifyTimestamp x leaf window x format x history (none, same object, other object
+	// before / in between). One at a time, after the parallel part.
+	for rev := 0; rev < 3; rev++ {
+		for opt := range options {
+			for lw := 0; lw < 2; lw++ {
+				for f := 0; f < 2; f++ {
+					for p := range priors {
+						objCases = append(objCases, caseT{TSAPol: 1, Option: opt, LeafW: lw, Token: 1, TSARev: rev, Format: f, RevVia: 1, Prior: p})
+					}
+				}
+			}
+		}
+	}
 	// pre-build the chains sequentially (deterministic serial numbers do not matter, but avoid lock contention)
 	for lw := range windows {
 		for mid := range mids {
@@ -854,6 +993,7 @@ func main() {
 	r.Extra["max_deviations"] = maxDev
 	r.Extra["max_deviations_when_a_secondary_dimension_deviates"] = maxDevSec
 	r.Extra["verifier_zone_cases"] = len(zoneCases)
+	r.Extra["other_verifier_object_and_built_in_validator_cases"] = len(objCases)
 	r.Extra["store_list_layouts"] = fmt.Sprint(layouts)
 	r.Extra["envelope_zones"] = fmt.Sprint(envZones)
 	r.Extra["verifier_zones"] = fmt.Sprint(verifierZones)
@@ -874,6 +1014,10 @@ func main() {
 	}, nil)
 	// sequential: the verifier's time zone (time.Local) is process-global
 	for _, c := range zoneCases {
+		w.run(r, c)
+	}
+	// sequential: histories over two verifier objects
+	for _, c := range objCases {
 		w.run(r, c)
 	}
 	if s, _ := w.forgeBroken.Load().(string); s != "" {
